@@ -93,3 +93,21 @@ pub fn cuts(ctx: &Ctx) {
 pub fn xml(ctx: &Ctx) {
     run(ctx, Knobs { xml_lexical: true, proto_attrs: true, ..Knobs::NONE });
 }
+
+/// the largest legal data packet: one 8-bit record, first packet of 65524 / 65528 stream bytes
+/// (packet length 65532 / 65536 = the maximum the 16-bit length field can express)
+pub fn maxpacket(ctx: &Ctx) {
+    let first = [65528usize, 65524, 65520][ctx.pick("first-packet-stream-bytes", 3)];
+    let extra = [1usize, 300, 5000][ctx.pick("points-after-first-packet", 3)];
+    let n = first + extra;
+    let proto = vec![crate::cat::rec("intensity", m::Ty::Int { min: 0, max: 255 })];
+    let points: Vec<Vec<m::Val>> = (0..n).map(|i| vec![m::Val::Int(((i * 7 + i / 251) % 256) as i64)]).collect();
+    let mut scene = scene(0);
+    scene.clouds.clear();
+    scene.clouds.push(m::Cloud { meta: m::CloudMeta { guid: Some("c".into()), ..Default::default() }, proto, points, records: n as u64, file_offset: 0 });
+    let k = Knobs { first_packet_bytes: first, gaps: true, ..Knobs::NONE };
+    if let Some((enc, exp)) = model_file(ctx, &scene, k) {
+        judge(ctx, 100, &enc, &exp);
+        ctx.nontrivial();
+    }
+}
